@@ -16,13 +16,17 @@ sets are answered as `S';P'` / `S';P';U'`, each sorted ascending.
 * `auerpos <eps> <S> <P> <centres> <rows>`  → literal mirror: `rows[k]` read for the k-th element of `S`
   (`S` in iteration order; `|rows| ≥ |S|`)
 * `around <eps> <S> <P> <centres> <widths>` → `S';P'` after Auer's discarding + pareto_updating, by design
-* `aroundpos <eps> <S> <P> <centres> <rows>`→ the same as the code runs it: `rows` aligned with `S`
+* `geomrect`, `geomelldom`, `geomballcov`, `ellcov` — the exact-geometry ops documented in `Drv/C02.lean`
+* `aroundpos <eps> <S> <P> <centres> <rows>`→ the same as the ORIGINAL code ran it: `rows` aligned with `S`
   before discarding (`|rows| = |S|`) and re-read by position after `S` shrank
 -/
 namespace VOPy.Drv.C03
 open VOPy VOPy.Proto VOPy.Steps VOPy.Drv.C02
 
 def handle (args : List String) : String :=
+  match geomHandle args with
+  | some ans => ans
+  | none =>
   match args with
   | ["pareto", s, p, u, n, c] =>
     match parseTable n c with
